@@ -87,7 +87,7 @@ theorem frame_evalValues (env : Env) (rules : List Rule) (l : Link) (o : Operato
     unfold evalValues
     exact (frame_evalCands env rules l o md _ tx).trans (ih _)
 
-theorem frame_evalTargets (env : Env) (rules : List Rule) (ecol : List (Var × Bytes)) (l : Link) (o : Operator)
+theorem frame_evalTargets (env : Env) (rules : List Rule) (ecol : List (Var × Exc)) (l : Link) (o : Operator)
     (ts : List Target) (tx : Tx) : Frame tx (evalTargets env rules ecol l o ts tx).1 := by
   induction ts generalizing tx with
   | nil => exact Frame.refl tx
@@ -219,7 +219,7 @@ theorem quiet_evalValues (env : Env) (rules : List Rule) (l : Link) (o : Operato
     unfold evalValues
     exact (quiet_evalCands env rules l o md _ tx).trans (ih _)
 
-theorem quiet_evalTargets (env : Env) (rules : List Rule) (ecol : List (Var × Bytes)) (l : Link) (o : Operator)
+theorem quiet_evalTargets (env : Env) (rules : List Rule) (ecol : List (Var × Exc)) (l : Link) (o : Operator)
     (ts : List Target) (tx : Tx) : Quiet tx (evalTargets env rules ecol l o ts tx).1 := by
   induction ts generalizing tx with
   | nil => exact Quiet.refl tx
